@@ -587,9 +587,16 @@ func (c *checker) run(mb member) outcome {
 		return runMember(dir, mb)
 	}
 	var lastErr error
-	for try := 0; try < 3; try++ {
-		oc, err := c.child(filepath.Join(dir, fmt.Sprintf("t%d", try)), mb)
+	for try, again := 0, 0; try < 3; try++ {
+		oc, err := c.child(filepath.Join(dir, fmt.Sprintf("t%d-%d", try, again)), mb)
 		if err == nil {
+			if strings.HasPrefix(oc.CheckError, "setup: again") && again < 8 {
+				// the live agent recorded its "running" status too early to show the running step: same member again
+				again++
+				try--
+				c.res.Count("live_members_started_again(status_written_before_the_step_ran)", 1)
+				continue
+			}
 			return oc
 		}
 		lastErr = err
